@@ -110,5 +110,145 @@ def fill(add, na):
         "maxdepth/_uniq, healpy.boundaries arguments and one polygon per "
         "pixel, and the absence of pickling hooks with paired save/load.",
         "byte-level FITS/DS9 correctness.", "DESIGN.md §4 C12")
+    add("C01",
+        "unit / width-kind / index-origin abstract interpretation with "
+        "contracts + interprocedural lmfit provenance + link check",
+        "Decides the convention chain from image pixel to catalogue row for "
+        "blind finding: every contracted call, catalogue-field store (live "
+        "at exit) and return agrees in unit (deg/rad/arcsec/pix), width "
+        "kind (sigma/FWHM), sky kind and pixel index type (row/col, 0/1 "
+        "origin, frame); the initial model matches the parameter "
+        "contracts; the residual/Jacobian wiring; lmfit values converted "
+        "before int-only uses; all library symbols resolve.",
+        "optimiser convergence, the numeric tolerances, the noise clause, "
+        "BANE's estimates.", "DESIGN.md §4 C01")
+    add("C03",
+        "CFG dominance/path rules + syntactic value-domain closure + sympy "
+        "identity + call-graph handler agreement + taint + link check",
+        "Decides island-number injectivity across priorized batches "
+        "(stride vs batch length) and the blind counter, component "
+        "numbering, the flag and error value domains, the normalisation "
+        "order fix_shape -> pa_limit -> RA wrap -> strings with pa_limit's "
+        "post-condition, the int_flux formula, that nondeterminism reaches "
+        "only uuids, that both drivers guard the fit with the NaN-model "
+        "handler, the island summary's index origin, lmfit int conversions "
+        "and library symbols.",
+        "that fits succeed numerically; equality of repeated runs beyond "
+        "absence of nondeterminism sources.", "DESIGN.md §4 C03")
+    add("C05",
+        "finite tabulation of stage predicates + paired-update/CFG rules + "
+        "D-num abstract interpretation + sentinel agreement + unit contracts",
+        "Decides the stage->vary table and its complement guards, the "
+        "uuid/PRIORIZED copy-back pairing with the accepted-source list, "
+        "integer-valued cut-out bounds that double as coordinate offsets, "
+        "that only the frame shift by the matching axis offset rewrites "
+        "parameters, the psf-column sentinel used by resize, and the "
+        "units/kinds/index origins of the priorized model.",
+        "numerical equality of refitted fluxes; blends.", "DESIGN.md §4 C05")
+    add("C06",
+        "offset-equivariance typing over the worker CFG + def-use patterns",
+        "Decides that the background is subtracted from the whole loaded "
+        "block with the matching background rows before the noise pass "
+        "(shift invariance of the rms map), pass 1 = clipped mean / pass 2 "
+        "= clipped std from the same symmetric clipping routine, BSCALE "
+        "applied and removed exactly once, NaN masking of own rows after "
+        "the last interpolated write under domask, and interpolation nodes "
+        "spanning the evaluation grid with (NAXIS2, NAXIS1) outputs.",
+        "statistical accuracy, range bounds, the blank-distance clause, "
+        "compressed outputs.", "DESIGN.md §4 C06")
+    add("C09",
+        "unit/kind abstract interpretation with column arrays and flag "
+        "specialisation + role-anchored argument rules + CFG last-writer",
+        "Decides the healpy query flags and nside/depth agreement, the "
+        "(lon,lat)->(colatitude,longitude) radians chain into healpy and "
+        "back (specialised on degin / degrees), the units every in-package "
+        "caller passes, that non-finite positions are forced to False "
+        "last, that flattening covers all stored levels, scalar/vector/"
+        "empty input shapes.",
+        "the geometric covering guarantee (healpy's contract), area "
+        "bounds.", "DESIGN.md §4 C09")
+    add("C13",
+        "finite tabulation + non-interference (read-set) + mirror-branch "
+        "agreement with sympy + sign-agnostic-use rule",
+        "Decides the polarity filter table over sign x flags, that the "
+        "flags are read only by the filter, that the isnegative branches "
+        "mirror the positive ones (extrema, curvature/clip conditions, "
+        "amplitude bounds under amp -> -amp), and that every sign-agnostic "
+        "use of pixel data (detection, summit ordering, summit snr) goes "
+        "through abs().",
+        "optimiser symmetry; islands containing both signs.",
+        "DESIGN.md §4 C13")
+    add("C14",
+        "unit/kind/index abstract interpretation + structural window, sign "
+        "and guard rules",
+        "Decides arcsec->deg, FWHM->sigma, degrees and the 0-based centre "
+        "on the 0-based grid at the model call; window half-widths using "
+        "both axes and the rotation with factor >= 5 and axis-matched "
+        "floor/ceil clipping; add/mask sign pairing and += accumulation; "
+        "off-image guards before indexing; mask thresholds; position-wise "
+        "column renaming.",
+        "float32 accumulation error; the find->subtract residual.",
+        "DESIGN.md §4 C14")
+    add("C15",
+        "writer/reader key tables + sympy inverse-map composition + CFG "
+        "path rules",
+        "Decides BN_* key agreement between compress / is_compressed "
+        "(presence test) / expand on every success path, that expand's "
+        "CRPIX map inverts compress's and CDELT/CD are scaled by the same "
+        "factor both ways, stride == BN_CFAC == node spacing with node k "
+        "at k*factor and row/column extents from NPX2/NPX1, and transparent "
+        "expansion before slicing / shape comparison.",
+        "values in the incomplete last cell; interpolation accuracy.",
+        "DESIGN.md §4 C15")
+    add("C16",
+        "sibling agreement of inverse pair + unit/kind/index abstract "
+        "interpretation of bodies against contracts",
+        "Decides that pix2sky/sky2pix/psf_sky2pix share one origin literal "
+        "and inverse (row,col)<->(x,y) swaps, that the vector/ellipse "
+        "transforms feed degrees to translate/gcd/bear and radians to trig "
+        "with no mixed deg/rad sums, return contracted units and kinds, and "
+        "that psf look-ups return (major, minor, angle) on every branch.",
+        "round-trip tolerances; non-orthogonality correction accuracy.",
+        "DESIGN.md §4 C16")
+    add("C17",
+        "value numbering into sympy + canonical-form identity + "
+        "quantise-before-split rule + parse/format agreement",
+        "Decides that gcd/bear/translate are identically the reference "
+        "spherical formulae (haversine identity, symmetry, position-angle "
+        "pair, destination point), that every fixed-decimal sexagesimal "
+        "field derives from a total quantised before splitting and hours "
+        "are reduced mod 24 after rounding, and separator/sign/15x "
+        "agreement between formatters and parsers.",
+        "floating-point agreement to 1e-9 deg near 0/180 deg; triangle "
+        "inequality numerics.", "DESIGN.md §4 C17")
+    add("C18",
+        "sibling / writer-reader agreement over class tables and dispatch "
+        "lists",
+        "Decides subclass-before-base classification, tuple-position and "
+        "suffix/table-name pairing, names being initialised attributes "
+        "iterated alike by reader and writer, FITS typing (32/64-bit ints, "
+        "float err columns, string widths over the whole column) and that "
+        "every advertised extension reaches a writer branch.",
+        "numeric precision of astropy's writers; sqlite contents.",
+        "DESIGN.md §4 C18")
+    add("C19",
+        "frame-condition (write-set) + sympy identities (embedding, chord, "
+        "resize) + role-anchored argument rules",
+        "Decides that regrouping writes only island/source labels, labels "
+        "come from enumerate with a strictly flux-decreasing key, DBSCAN "
+        "arguments, the unit-vector embedding, the arcsec->arcmin->deg->rad"
+        "->chord conversion 2 sin(theta/2) at both call sites, the "
+        "labels->groups partition and resize's identity/monotonicity.",
+        "DBSCAN's implementation; the elliptical-distance variant's "
+        "connectivity and permutation invariance.", "DESIGN.md §4 C19")
+    add("C20",
+        "exactness (D-num) rule + sympy floor identities + CFG path rule + "
+        "finite tabulation of guards",
+        "Decides that band boundaries are exact integer arithmetic, "
+        "consecutive, starting at 0 and ending at NAXIS2; that NAXIS2 and "
+        "CRPIX2 are adjusted on every path to a return (compressed inputs "
+        "included); that the guards accept exactly 0 <= band0 < band1; and "
+        "that data and header use the same row bounds.",
+        "pixel values for scaled integer images.", "DESIGN.md §4 C20")
     for p in ["C%02d" % i for i in range(1, 21)]:
         na.setdefault(p, TODO)
